@@ -435,6 +435,23 @@ def pair_groups(cx, nodes, rng):
         tail = rng.choice(tails)
         fam = [X.absp(*(base + f + tail)) for f in forms if f]
         fams.append(("list:" + name, 0, fam))
+        if any(a["name"] in keyname for a in anc):
+            # several parents in the context set: the enclosing list entries are NOT pinned by key predicates, so the keyed lookup runs
+            # once per parent and the same key value may (and, by the choice below, often does) occur under more than one of them
+            same = [n for n in nodes if n["kind"] == "i" and n["name"] == name and n["mod"] == ent["mod"] and n["i"] != ent["i"]]
+            kv2 = dict(kv)
+            if same and rng.random() < 0.7:
+                o = rng.choice(same)
+                okv = {k["name"]: k["v"] for k in kids(o["i"]) if k["name"] in ks and k["mod"] == X.A}
+                if len(okv) == len(ks) and all(lit_or_none(v) is not None for v in okv.values()):
+                    kv2 = okv
+            eqs2 = [(k, kv2[k]) for k in ks]
+            base2 = [X.st(X.nm(a["name"], a["mod"])) for a in anc]
+            forms2 = [[X.st(name, preds=[X.bop("eq", K(k), X.lit(v)) for (k, v) in eqs2])],
+                      [X.st(name, preds=[X.bop("eq", X.fn("string", K(k)), X.lit(v)) for (k, v) in eqs2])],
+                      [X.st(name, preds=[X.bop("and", X.bop("eq", K(k), X.lit(v)), X.fn("true")) for (k, v) in eqs2])],
+                      [X.st(X.STAR, preds=[X.relp(X.st(name, "self"))] + [X.bop("eq", K(k), X.lit(v)) for (k, v) in eqs2])]]
+            fams.append(("list-multiparent:" + name, 0, [X.absp(*(base2 + f + tail)) for f in forms2]))
         # relative from the parent
         if ent["p"]:
             fams.append(("list-rel:" + name, ent["p"], [X.relp(*(f + tail)) for f in forms if f]))
